@@ -53,6 +53,8 @@ type modelState struct {
 	filterWin map[string]*filterWindow // pod uid -> open Filter window
 	foreignDelete map[string]int // app/pool prefix -> step of the last delete under it by the release API, a reload or the world
 	replicaHist   map[*App][]sizePoint
+	lostReservation   map[string]string
+	lostReservationIP map[string]string
 	mixedUIDs     map[string]bool // identity -> its key held IPs recorded for two different incarnations at some instant
 }
 
@@ -67,7 +69,7 @@ type filterWindow struct {
 
 func newModel() *modelState {
 	return &modelState{idents: map[string]*Ident{}, allocs: map[string]*Alloc{}, adminRel: map[string]bool{}, poolSize: map[string][]sizePoint{}, poolView: map[string][]sizePoint{},
-		filterWin: map[string]*filterWindow{}, foreignDelete: map[string]int{}, replicaHist: map[*App][]sizePoint{}, mixedUIDs: map[string]bool{}}
+		filterWin: map[string]*filterWindow{}, foreignDelete: map[string]int{}, replicaHist: map[*App][]sizePoint{}, mixedUIDs: map[string]bool{}, lostReservation: map[string]string{}, lostReservationIP: map[string]string{}}
 }
 
 func (w *World) livePodWithKey(key string) *PodInfo {
@@ -181,6 +183,12 @@ func (w *World) newAlloc(ip, key string, by *core.Task, reserved bool) *Alloc {
 		al.PodGoneSince = w.livePodWithKey(key) == nil
 		al.AppGoneSince = !w.appExists(id.App)
 		al.MinReplicas = id.App.Replicas
+		// what galaxy-ipam's lister shows may be older than the truth
+		if vr, ok := w.viewReplicas(id.App); !ok {
+			al.AppGoneSince = true
+		} else if vr < al.MinReplicas {
+			al.MinReplicas = vr
+		}
 	}
 	w.M.allocs[ip] = al
 	return al
@@ -369,4 +377,48 @@ func (w *World) maxReplicasSince(a *App, step int) int {
 		m = a.Replicas
 	}
 	return m
+}
+
+// viewReplicas returns the workload's replicas as the informer view shows them (false if the view has no such object).
+func (w *World) viewReplicas(a *App) (int, bool) {
+	kind := appKindRes(a)
+	if kind == "" {
+		return a.Replicas, !a.Deleted
+	}
+	o := w.K.ViewGet(kind, a.NS, a.Name)
+	if o == nil {
+		return 0, false
+	}
+	var d struct {
+		Spec struct {
+			Replicas *int `json:"replicas"`
+		} `json:"spec"`
+	}
+	_ = json.Unmarshal(o.JSON, &d)
+	if d.Spec.Replicas == nil {
+		return 1, true
+	}
+	return *d.Spec.Replicas, true
+}
+
+// modelViewChanged is called when a workload event reaches the informer view.
+func (w *World) modelViewChanged() {
+	for _, ip := range sortedKeys(w.M.allocs) {
+		al := w.M.allocs[ip]
+		id := w.M.idents[al.Key]
+		var app *App
+		if id != nil {
+			app = id.App
+		} else {
+			app = w.appOfPrefix(al.Key)
+		}
+		if app == nil {
+			continue
+		}
+		if vr, ok := w.viewReplicas(app); !ok {
+			al.AppGoneSince = true
+		} else if vr < al.MinReplicas {
+			al.MinReplicas = vr
+		}
+	}
 }
